@@ -19,7 +19,7 @@ func (C12) Plan(tier string) core.Plan {
 	if tier == "thorough" {
 		return core.Plan{Cases: 300000, Schedules: 16}
 	}
-	return core.Plan{Cases: 16000, Schedules: 8}
+	return core.Plan{Cases: 14000, Schedules: 8}
 }
 
 func (C12) Info() core.Info {
